@@ -104,7 +104,6 @@ func checkC08(c *h.Check) {
 			for k := range extraNames {
 				g := mk()
 				g.ExtraItems = extraItems(k)
-				g.InSet = g.InSet // the extra item is always a direct Build argument (appended after wrapping, see Build)
 				add(fmt.Sprintf("C08/extra/%s/extra=%s", id, extraNames[k]), g)
 			}
 		})
